@@ -466,6 +466,7 @@ func runSweep(p *vc.Program, opt vc.Options) {
 		names = append(names, n)
 	}
 	sort.Strings(names)
+	fmt.Printf("SWEEP without contract: %s\n", strings.Join(names, ", "))
 	total, bad := 0, 0
 	for _, n := range names {
 		fn := p.Funcs[n]
